@@ -43,6 +43,8 @@ ENUM2 = {"metadata_type": "define_enum", "namespace": "MyNS", "name": "Kind", "v
 COLL = {"metadata_type": "add_atlas_event_collection_info", "name": "MyJets", "include_files": ["xAODJet/JetContainer.h"], "container_type": "xAOD::JetContainer", "element_type": "xAOD::Jet", "contains_collection": True}
 COLL_REPLACE = {"metadata_type": "add_atlas_event_collection_info", "name": "Jets", "include_files": ["other/Other.h"], "container_type": "xAOD::OtherContainer", "element_type": "xAOD::Other", "contains_collection": True}
 FUNC = {"metadata_type": "add_cpp_function", "name": "MyFunc", "include_files": ["myfunc.h"], "arguments": ["a"], "code": ["double result = a * 2;"], "return_type": "double"}
+FUNC_V2 = {"metadata_type": "add_cpp_function", "name": "MyFunc", "include_files": ["other.h"], "arguments": ["a"], "code": ["double result = a + 100;"], "return_type": "double"}
+COLL_V2 = {"metadata_type": "add_atlas_event_collection_info", "name": "MyJets", "include_files": ["xAODMuon/MuonContainer.h"], "container_type": "xAOD::MuonContainer", "element_type": "xAOD::Muon", "contains_collection": True}
 SCRIPT = {"metadata_type": "add_job_script", "name": "s1", "script": ["leak_line_1 = 1"], "depends_on": []}
 SCRIPT2 = {"metadata_type": "add_job_script", "name": "s2", "script": ["leak_line_2 = 2"], "depends_on": ["s1"]}
 BLOCK = {"metadata_type": "inject_code", "name": "b1", "body_includes": ["leak.h"], "ctor_lines": ["int leak = 1;"], "link_libraries": ["LeakLib"]}
@@ -64,6 +66,9 @@ A_MYJETS = "Select(DS, lambda e: e.MyJets('b').Select(lambda j: j.pt()))"
 A_FUNC = "Select(DS, lambda e: e.Jets('AntiKt4').Select(lambda j: MyFunc(j.pt())))"
 A_BAD_BODY = "Select(DS, lambda e: e.Jets('AntiKt4').Select(lambda j: j.pt() // 2))"
 A_XMD = "Select(DS, lambda e: e.EventInfo('EventInfo').runNumber())"
+A_TRUTH = "Select(DS, lambda e: e.TruthParticles('Truth').Select(lambda t: t.prodVtx().x()))"  # relies on the ATLAS default method types
+C_TRK = "Select(DS, lambda e: e.Muons('muons').Select(lambda m: m.globalTrack().pt()))"  # relies on the CMS default method types
+M_TRK = "Select(DS, lambda e: e.Muons('slimmedMuons').Select(lambda m: m.isPFMuon()))"
 C_PT = "Select(DS, lambda e: e.Muons('muons').Select(lambda m: m.pt()))"
 M_PT = "Select(DS, lambda e: e.Muons('slimmedMuons').Select(lambda m: m.pt()))"
 
@@ -79,6 +84,11 @@ STEP_POOL = [
     ("declare-collection", "atlas", q(A_MYJETS, [COLL]), True, False),
     ("replace-collection", "atlas", q(A_PT, [COLL_REPLACE]), True, False),
     ("declare-function", "atlas", q(A_FUNC, [FUNC]), True, False),
+    ("declare-function-v2", "atlas", q(A_FUNC, [FUNC_V2]), True, False),
+    ("declare-collection-v2", "atlas", q(A_MYJETS, [COLL_V2]), True, False),
+    ("atlas-default-types", "atlas", q(A_TRUTH), False, False),
+    ("cms-default-types", "cms_aod", q(C_TRK), False, False),
+    ("miniaod-default-types", "cms_miniaod", q(M_TRK), False, False),
     ("job-scripts", "atlas", q(A_PT, [SCRIPT, SCRIPT2]), True, False),
     ("job-script-then-bad-body", "atlas", q(A_BAD_BODY, [SCRIPT]), True, True),
     ("code-block", "atlas", q(A_PT, [BLOCK]), True, False),
@@ -94,6 +104,8 @@ PROBES = [
     ("atlas", q(A_PT)), ("atlas", q(A_PT2)), ("atlas", q(A_ENUM)), ("atlas", q(A_ENUM2)), ("atlas", q(A_MYJETS)), ("atlas", q(A_FUNC)),
     ("atlas", q(A_XMD, [XMD])), ("atlas", q(A_XMD)), ("cms_aod", q(C_PT)), ("cms_miniaod", q(M_PT)),
     ("atlas", q("Select(DS, lambda e: (e.Jets('AntiKt4').Select(lambda j: j.pt()).First(), e.Jets('AK10').Count() / 2))")),
+    ("atlas", q(A_FUNC, [FUNC])), ("atlas", q(A_FUNC, [FUNC_V2])), ("atlas", q(A_MYJETS, [COLL])), ("atlas", q(A_MYJETS, [COLL_V2])),
+    ("atlas", q(A_TRUTH)), ("cms_aod", q(C_TRK)), ("cms_miniaod", q(M_TRK)),
     ("atlas", q(A_PT, [SCRIPT2])),  # depends on s1 that only an earlier query sent: must fail
     ("atlas", q(A_XMD, [XMD]) + " "),  # trailing blank = do NOT register the extended metadata type first: must fail in a fresh process
 ]
